@@ -371,6 +371,13 @@ RENAMES = [
     ("_xn_active_in_call", "is_active_now"), ("_conf_to_values", "reconfigured_values"), ("extend_results_with_args", "bind_arguments"),
 ]
 
+# a benign variant that is not indifferent to every property: it is not generated for the listed ones (where the same edit is a mutant)
+BENIGN_EXCEPT: Dict[str, Tuple[str, ...]] = {
+    # with one thread node and one async-thread node in flight the loop is blocked while the async-thread node runs (seed C17w, same edit
+    # under the SEQ-PRE licence); what starts, idling and the observation of failures do not depend on the order
+    "swap-main-waits": ("C17",),
+}
+
 BENIGN: List[Tuple[str, str, List[Tuple[str, str]]]] = [
     ("rename-setup-helpers", D, [("_run_setup", "_execute_setup_graph"), ("_only_setup_nodes", "_drop_ordinary_nodes")]),
     ("return-node-id-local", N, [('    suffix = make_suffix(name_or_order)\n    return f"{func.__qualname__}{RETURN_NAME_SEP}{suffix}"',
@@ -532,6 +539,10 @@ def _seed_overrides(root: str, patch: str) -> Optional[Dict[str, str]]:
         shutil.rmtree(tmp, ignore_errors=True)
 
 
+# the edits of BENIGN_EXCEPT are mutants of the excepted properties
+MUTANTS.extend((vid + "@mutant", rel, edits, None, list(BENIGN_EXCEPT[vid])) for vid, rel, edits in BENIGN if vid in BENIGN_EXCEPT)
+
+
 def build_jobs(root: str, pids: List[str]) -> List[tuple]:
     jobs = []
     src_cache: Dict[str, str] = {}
@@ -560,6 +571,8 @@ def build_jobs(root: str, pids: List[str]) -> List[tuple]:
             for o, n in edits:
                 s = s.replace(o, n)
         for pid in pids:
+            if pid in BENIGN_EXCEPT.get(vid, ()):
+                continue
             jobs.append(("benign", vid, pid, root, {rel: s} if ok else None))
     # whole-package benign variant: every file re-emitted by ast.unparse (comments gone, layout and line numbers changed)
     import ast as _ast
